@@ -33,7 +33,14 @@ def _hooks():
         if name == 'time.perf_counter':
             return [(st, RealV(smt.fresh('t', smt.Real)))]
         return None
-    return {'builtin_hook': builtin_hook}
+
+    def ds_getitem_other(eng, st, view, item):
+        # input[slice | list | array] of the wrapped pipeline: Dataset.__getitem__ builds SliceDataset(item, input)
+        from pyvc.engine import SliceSpecV
+        if isinstance(item, SliceSpecV) and item.classes & {'slice', 'list', 'tuple', 'ndarray'}:
+            return [(st, StageV('SliceDataset', [item, DSRefV(view.d)], {}))]
+        return None
+    return {'builtin_hook': builtin_hook, 'ds_getitem_other': ds_getitem_other}
 
 
 class PassView(View):
@@ -114,6 +121,17 @@ def _getitem_post(kind):
             out.append(('C20:failed-hit-counted-separately', z3.And(h0 == e0 + 1, h1 == e1 + z3.If(is_exc, 1, 0))))
         return out
     return post
+
+
+def _getitem_other_post(S, o):
+    """ds[slice | list | array] selects, it fetches nothing: the selection must keep the wrapper in the access path
+    (SliceDataset(item, self)) -- otherwise the examples later fetched through it are not counted at this stage -- and
+    the selecting call itself is not a hit"""
+    out = post_getitem_other()(S, o)
+    h0, h1 = hits(S)
+    e0, e1 = hits(S, 'entry')
+    out.append(('C20:selecting-a-sub-dataset-is-not-a-fetch', z3.And(h0 == e0, h1 == e1)))
+    return out
 
 
 def _init_hooks():
@@ -197,7 +215,9 @@ class ProfilingDatasetC(ClassContract):
         __getitem__=[Variant('int', params={'item': 'int'}, requires=lambda S: self_view(S).idx,
                              post=_getitem_post('int'), hooks=_hooks(), props=('C20',)),
                      Variant('str', params={'item': 'key'}, requires=lambda S: self_view(S).keys,
-                             post=_getitem_post('str'), hooks=_hooks(), props=('C20',))],
+                             post=_getitem_post('str'), hooks=_hooks(), props=('C20',))]
+        + [Variant(k_, params={'item': 'slicespec:' + k_}, post=_getitem_other_post, hooks=_hooks(), props=('C20',))
+           for k_ in ('slice', 'list')],
         __len__=[Variant('len', post=post_len(self_view), props=('C20',))],
         indexable=[Variant('flag', post=post_bool_property(lambda S: self_view(S).idx), props=('C20', 'C02'),
                            inline=('indexable',))],
